@@ -46,6 +46,9 @@ import (
 //          every table – association and join tables included – refuses the n-th inserted / updated / deleted row),
 //          mech "poison" (the n-th record of the graph carries a value refused by a CHECK / NOT NULL constraint)
 //
+//   encl   the ENCLOSING CONTEXT of the write (round 4): own suite `enclosed`, c05_encl.go – the caller continues in his
+//          transaction after the failed write and commits; `where` above only covers callers that roll back
+//
 // Oracle (only what the property text states):
 //   * an injected failure of BEGIN / a statement / COMMIT must surface in the returned error (text of the
 //     injected value contained in err.Error() – AddError joins several errors textually);
@@ -166,6 +169,7 @@ func c05Ops() []c05Op {
 				for i := range us {
 					cp[i] = *c05CloneUser(us[i])
 				}
+				c05NoteBatches(len(cp), size)
 				return db.CreateInBatches(&cp, size).Error
 			}
 		}},
@@ -257,7 +261,13 @@ func c05OpenDBS(where string) (*gorm.DB, *Recorder, *sql.DB, *sql.Conn, *c05Stag
 	}
 	cfg := &gorm.Config{Logger: logger.Discard, NowFunc: fixedNowFunc}
 	var dial gorm.Dialector = sqlite.Dialector{Conn: sqlDB}
-	switch where {
+	// "<base>+sp": the dialector whose SavePoint / RollbackTo REPORT the statement's error (c04_run.go spDialector; the
+	// stock SQLite dialector – outside /repo – drops it, MySQL / Postgres dialectors report it)
+	base := strings.TrimSuffix(where, "+sp")
+	if base != where {
+		dial = spDialector{sqlite.Dialector{Conn: sqlDB}}
+	}
+	switch base {
 	case "translate":
 		cfg.TranslateError = true
 		dial = c05Dialector{sqlite.Dialector{Conn: sqlDB}}
@@ -265,6 +275,8 @@ func c05OpenDBS(where string) (*gorm.DB, *Recorder, *sql.DB, *sql.Conn, *c05Stag
 		cfg.PrepareStmt = true
 	case "skipdefault":
 		cfg.SkipDefaultTransaction = true
+	case "nonested":
+		cfg.DisableNestedTransaction = true
 	}
 	db, err := gorm.Open(dial, cfg)
 	if err != nil {
@@ -295,20 +307,35 @@ func c05Build(op c05Op, seed int64, where string) *c05World { return c05BuildS(o
 // c05BuildS: stages = record (and allow to fail) the stage events of c05_stage.go; every table of the world gets the
 // sleeping RAISE(ABORT) triggers
 func c05BuildS(op c05Op, seed int64, where string, stages bool) *c05World {
+	return c05BuildX(op, c05Fam(op), seed, where, stages, nil, nil)
+}
+
+// c05BuildX: fam "" relation family, "s" C05S family, "h" hook family (c05_hooks.go); extra models / tables are added
+// to the world (c05_encl.go: marks of the enclosing context, the outer record whose hook issues the write)
+func c05BuildX(op c05Op, fam string, seed int64, where string, stages bool, extraModels []interface{}, extraTables []string) *c05World {
 	db, rec, sqlDB, keep, ctl := c05OpenDBS(where)
 	models, tables := relModels, relTables
-	if c05Fam(op) == "s" {
+	switch fam {
+	case "s":
 		models = c05SModels
 		tables = c05TablesOf(db, models)
+	case "h":
+		c05Plan = nil
+		models, tables = c05HookModels, c05HookTables
 	}
+	models = append(append([]interface{}{}, models...), extraModels...)
+	tables = append(append([]string{}, tables...), extraTables...)
 	if err := db.AutoMigrate(models...); err != nil {
 		panic(err)
 	}
 	c05InstallTriggers(db, rec, tables)
 	rng := rand.New(rand.NewSource(seed))
-	if c05Fam(op) == "s" {
+	switch fam {
+	case "s":
 		c05SSeed(db, rng)
-	} else {
+	case "h":
+		c05HookSeed(db, rng)
+	default:
 		seedRel(db, rng, 3)
 	}
 	w := &c05World{where: where, db: db, rec: rec, sqlDB: sqlDB, keep: keep, tables: tables, ctl: ctl}
